@@ -15,7 +15,7 @@ CLAIMS = {
  "C04": ("GetBoringGREASEValue, isGREASEUint16/unGREASEUint16, QUIC GREASE transport-parameter ids (31N+27, <= 2^62-1) and GREASE version form 0x?a?a?a?a (found violated, fixed by 6e3a082); ApplyPreset: GREASE cipher suites become the connection's GREASE value, the two GREASE extensions get different values (the ^0x1010 fix-up is proved), and every GREASE entry of supported_groups and every GREASE key_share group equals the same per-connection GREASE group.",
          "Freshness across connections (probabilistic) and the GREASE entries of supported_versions are not decided."),
  "C05": ("BoringPaddingStyle and AlwaysPadToLen closures: exact 255/512 policy incl. the 1-byte case and the total-length lemma; UtlsPaddingExtension Len/Read/Update; MarshalClientHelloNoECH calls Update iff there is exactly one padding extension, exactly once, on that extension, with headerLength+4+sum(Len of the others)+2.",
-         "FromRaw padding reconstruction is not under contract; Update's callee GetPaddingLen is a user function."),
+         "FromRaw re-creates a captured padding extension with AlwaysPadToLen(len(raw)-5) (anchor); Update's callee GetPaddingLen is a user function."),
  "C06": ("Every extension decoder (Write) in u_tls_extensions.go is total and functional: accepted inputs characterised exactly, fields are the wire values (GREASE normalised), order preserved; FromRaw: framing accepted exactly as stated, versions, cipher suites (ReadCipherSuites exact, GREASE normalised), compression methods and the no-extension case exact; ReadTLSExtensions keeps the existing prefix and appends only non-nil extensions; AlwaysPadToLen policy; ApplyPreset re-applies cipher suites, compression methods (defect found and fixed, 7533201) and extension order.",
          "'One spec extension per wire extension, in wire order' through ReadTLSExtensions (interface call to the decoders havocs the caller's cursor component) and the re-marshal idempotence lemma are not decided; equal-size hypothesis for total length is outside."),
  "C07": ("Panic-freedom (bounds, nil, type assertions, explicit panics) of all 25 extension decoders for arbitrary input bytes, against exact trusted contracts of cryptobyte.String; of the raw import drivers FromRaw, ReadCipherSuites, ReadCompressionMethods, ReadTLSExtensions, AlwaysAddPadding, Fingerprinter entry points; of the JSON importers of the extension types and the ImportTLSClientHello loops (three panics/overflows found and fixed: 6d91c88, 9e151ed, c42f361); AlwaysPadToLen never yields a negative padding length.",
@@ -51,7 +51,7 @@ CLAIMS = {
  "C27": ("MakeConnWithCompleteHandshake: nil for unsupported suites, exact panic condition, state fields, sequence numbers, and the mirror wiring of keys/IVs/MACs and direction flags per role through call-site anchors (defect found and fixed, 4d378a7); cipherSuiteByID searches the uTLS suite table; prepareCipherSpec/changeCipherSpec/incSeq.",
          "Suite constructors are opaque (assume-pure); keysFromMasterSecret is trusted; that two record layers then interoperate is outside."),
  "C28": ("GetOutKeystream: modifies nothing (does not change what is sent next), error for non-AEAD ciphers, result is Seal(out.cipher, nonce=out.seq, zeros(n)), i.e. the keystream bytes under the symbolic AEAD law.",
-         "That halfConn.encrypt uses the same nonce/plaintext layout (T2) and that real AEADs satisfy the keystream law are assumed."),
+         "halfConn.encrypt (thin contract) seals each record under the current sequence number as nonce when the suite has no explicit nonce (TLS 1.3, ChaCha20) -- the 8-byte explicit-nonce case of TLS 1.2 AES-GCM is not decided; that real AEADs satisfy the keystream law is assumed (symbolic)."),
  "C29": ("Roller.Dial: starts with WorkingHelloID when set, then each configured id at most once (loop invariant over the shuffled list), returns the first connection whose handshake succeeds with SNI set, records that id; TCP dial error returned immediately; NewRoller, UClient, SetSNI, PRNG constructors.",
          "Concurrent Dials (data races) are outside sequential contracts; observation: the working id is tried again inside the loop (same id twice per call) when it also appears in HelloIDs -- recorded in DESIGN.md."),
  "C30": ("Intn/Int63n/Int63/Uint64/Perm/Read ranges, Range incl. the overflow corner (check overflow), FlipWeightedCoin in floating point (weight<=0 never, weight>=1 iff Int63()!=0).",
